@@ -146,6 +146,10 @@ func (v *IndexVamana) insertUpdateDelete(ctx context.Context, pointQueue <-chan 
 	deletedPointsIds := make([]uint64, 0)
 	toRemoveInBoundNodeIds := make(map[uint64]struct{})
 	// ---------------------------
+	// The stages below get their own context so that a failing one stops the
+	// others, and we can wait for all of them before reporting the failure.
+	ctx, cancel := context.WithCancel(ctx)
+	defer cancel()
 	insertQ, distributeErrC := utils.TransformWithContext(ctx, pointQueue, func(point IndexVectorChange) (out IndexVectorChange, skip bool, err error) {
 		if point.Id == STARTID {
 			err = fmt.Errorf("cannot modify point with start id: %d", STARTID)
@@ -196,7 +200,11 @@ func (v *IndexVamana) insertUpdateDelete(ctx context.Context, pointQueue <-chan 
 	errCs[numWorkers] = distributeErrC
 	/* We don't want to interleave inbound edge pruning for update and delete
 	 * while insert is happening. This may again lead to disconnected graphs. */
-	if err := <-utils.MergeErrorsWithContext(ctx, errCs...); err != nil {
+	insertErrC := utils.MergeErrorsWithContext(ctx, errCs...)
+	if err := <-insertErrC; err != nil {
+		cancel()
+		for range insertErrC {
+		}
 		return fmt.Errorf("could not distribute or insert points: %w", err)
 	}
 	// ---------------------------
